@@ -181,7 +181,20 @@ def judge_depth(case):
         if case.get("bottom") not in (None, "empty") or (case.get("bottom") and shape in ("union_first", "union_last", "union_int_list")):
             raise HarnessError("bad bottom")
         x = chain(shape, D, positions, siblings=case.get("siblings", 0), shared=bool(case.get("shared")), bottom=case.get("bottom"))
-        if how == "class":
+        entry = case.get("entry", "from")
+        if entry not in ("from", "transform", "param") or (entry != "from" and how != "class"):
+            raise HarnessError("bad entry")
+        if entry == "transform":
+            # the same class reached through the type-level entry point: the nesting depth of the VALUE is what counts
+            import utype
+            out = oracle.outcome(utype.type_transform, x, N)
+        elif entry == "param":
+            import utype
+
+            def fn(n: N):
+                return n
+            out = oracle.outcome(utype.parse(fn), x)
+        elif how == "class":
             out = oracle.outcome(N.__from__, x)
         else:
             import utype
@@ -195,7 +208,7 @@ def judge_depth(case):
         if (out[0] == "ok") != want:
             kind = "accepts-deeper-than-max_depth" if out[0] == "ok" else "rejects-within-max_depth"
             falsy = any(p in (0, "") for p in positions)
-            fails.append((f"depth/{kind}/{shape}/{'falsy-position' if falsy else 'position'}{'' if how == 'class' else '/' + how}{'/shared-subtrees' if case.get('shared') else ''}",
+            fails.append((f"depth/{kind}/{shape}/{'falsy-position' if falsy else 'position'}{'' if how == 'class' else '/' + how}{'/shared-subtrees' if case.get('shared') else ''}{'' if entry == 'from' else '/entry:' + entry}",
                           {"D": D, "max_depth": d, "positions": pos, "limit_from": how, "class_limit": case.get("class_limit"),
                            "error": None if out[0] == "ok" else str(out[1])[:200]}))
         return {"status": "accepted" if out[0] == "ok" else "rejected", "fails": fails}
@@ -353,6 +366,10 @@ def campaign(ctx):
             for D in range(1, 6):
                 for d in (1, 2, 3, 4):
                     grid.append({"part": "depth", "shape": shape, "D": D, "max_depth": d, "positions": [POSITIONS[shape][0]], "bottom": bottom})
+        for entry in ("transform", "param"):
+            for D in range(1, 5):
+                for d in (1, 2, 3):
+                    grid.append({"part": "depth", "shape": shape, "D": D, "max_depth": d, "positions": [POSITIONS[shape][0]], "entry": entry})
         for d in (1, 2, 4):
             for cyc in ("self", "two"):
                 grid.append({"part": "cycle", "shape": shape, "max_depth": d, "cycle": cyc})
